@@ -158,6 +158,10 @@ def run(ctx: Ctx):
     r9_4(ctx, L)
     r9_5(ctx, L)
     r9_6(ctx, L)
+    # "a bond-preserving single-atom move": the traversal discipline and the pull length of move_mol_atom (C07)
+    from . import c07
+    c07.r7_2_3(ctx, ctx.func("move_mol_atom"))
+    c07.r7_5(ctx, ctx.func("move_mol_atom"))
 
 
 def _in_accept_branch_toplevel(L: Loop, st) -> bool:
